@@ -8,6 +8,8 @@ import (
 
 	"github.com/PowerDNS/lightningstream/lmdbenv/header"
 	"github.com/PowerDNS/lightningstream/lmdbenv/strategy"
+	"github.com/PowerDNS/lightningstream/snapshot"
+	"github.com/PowerDNS/lightningstream/syncer"
 	"github.com/PowerDNS/lmdb-go/lmdb"
 	"github.com/PowerDNS/simpleblob/backends/memory"
 )
@@ -69,7 +71,7 @@ func areaShadow(r *Rng, n int, dir string) (*AreaOut, error) {
 				if r.Chance(40) {
 					nv := 1 + r.Intn(3)
 					for j := 0; j < nv; j++ {
-						v := pick(r, [][]byte{[]byte("v"), []byte("w"), []byte("vv"), []byte("\x00"), []byte("\x00\x00\x00\x00\x01"), bytes.Repeat([]byte("L"), 511), append(bytes.Repeat([]byte("L"), 505), byte('a' + r.Intn(2)))})
+						v := pick(r, [][]byte{[]byte("v"), []byte("w"), []byte("vv"), []byte("\x00"), []byte("\x00\x00\x00\x00\x01"), bytes.Repeat([]byte("L"), 511), append(bytes.Repeat([]byte("L"), 505), byte('a'+r.Intn(2)))})
 						mainPairs = append(mainPairs, pair{k, v})
 					}
 				}
@@ -138,6 +140,17 @@ func areaShadow(r *Rng, n int, dir string) (*AreaOut, error) {
 						if txn.Del(mainDBI, p.K, p.V) == nil {
 							_ = txn.Put(mainDBI, p.K, nv, 0)
 						}
+					}
+				}
+			}
+			if op == "projectdup" && r.Chance(35) {
+				// pairs that arrived from DIFFERENT instances (merged into the shadow DBI by LoadOnce): a value and a
+				// longer value extending it by a byte below the key length sort differently as shadow keys and as
+				// LMDB duplicates — locally the encode check refuses the combination, merged remote data may hold it
+				k := pick(r, [][]byte{[]byte("ab"), []byte("abcd"), []byte("k\x00k")})
+				for _, v := range [][]byte{[]byte("x"), append([]byte("x"), append([]byte{byte(r.Intn(len(k)))}, []byte("tail")...)...)} {
+					if e, err := syncer.VerifDupSortEncodeOne(snapshot.KV{Key: k, Value: v}); err == nil {
+						_ = txn.Put(shDBI, e.Key, mkStored(now/2+1, 7, 0, 0, v), 0)
 					}
 				}
 			}
@@ -360,6 +373,37 @@ func mirrorOracle(op string, now, txn uint64, main, shadow, result []pair) []Ora
 		for k := range got {
 			if _, ok := want[k]; !ok {
 				add("C11", "project-extra", fmt.Sprintf("key %x is in the application DBI but deleted/absent in the merged state", k))
+			}
+		}
+	case "projectdup":
+		// C20: the rebuilt duplicate-keys DBI holds exactly the decoded pairs of the live shadow entries with a
+		// non-empty value (whatever instance they came from)
+		want := map[string]bool{}
+		for _, p := range shadow {
+			lv, ok := logical(p.V)
+			if !ok || len(p.K) < 6 {
+				return fs
+			}
+			kl := int(p.K[len(p.K)-1])
+			if kl+5 > len(p.K) {
+				return fs
+			}
+			if !lv.Del && len(lv.Val) > 0 {
+				want[string(p.K[:kl])+"\x00|"+string(lv.Val)] = true
+			}
+		}
+		got := map[string]bool{}
+		for _, p := range result {
+			got[string(p.K)+"\x00|"+string(p.V)] = true
+		}
+		for k := range want {
+			if !got[k] {
+				add("C20", "project-dup-pairs", fmt.Sprintf("pair %q is live in the shadow DBI but missing from the application's duplicate-keys DBI after shadowToMain", k))
+			}
+		}
+		for k := range got {
+			if !want[k] {
+				add("C20", "project-dup-pairs", fmt.Sprintf("pair %q is in the application's duplicate-keys DBI but not live in the shadow DBI", k))
 			}
 		}
 	}
